@@ -488,7 +488,8 @@ fn oracles(ctx: &mut Ctx, case_id: &str, li: usize, f: &Flw, h: &Hist, at_sync_p
         return;
     }
     let rot = match &f.cfg.rot { Some(r) => r, None => return };
-    if cleanup.is_some() || all != stream {
+    if cleanup.is_some() || all != stream || h.recs.iter().any(|r| r.0.is_empty()) {
+        // (an empty chunk has no position of its own in a file: the partition oracles do not apply)
         return;
     }
     // map records to files
